@@ -396,7 +396,11 @@ def toast_pixel_for_point(depth, lat, lon, coordsys=ToastCoordinateSystem.ASTRON
     # Now that we have the tile, get its pixel locations and identify the pixel
     # that is closest to the input position.
 
-    lons, lats = toast_tile_get_coords(tile)
+    if depth == 0:
+        # The level-0 tile comes without corner information.
+        lons, lats = _toast_level0_get_coords(coordsys)
+    else:
+        lons, lats = toast_tile_get_coords(tile)
 
     # The tile longitudes come in a mixture of 2pi-equivalent representations,
     # so bring them all to within pi of the target longitude before taking
